@@ -105,6 +105,13 @@ def evaluate(ctx, rep, pdb2sql, cases, record=True):
                 rin, din, dlines = case['ref'], case['decoy'], case['decoy']
             def call():
                 sim = SS(din, rin)
+                if case.get('prime_pickle') is not None and case['as_file']:
+                    # the reference residue pairs were saved earlier for ANOTHER cutoff under the library's default file
+                    # name (next to the reference): the value asked for now depends on its own cutoff only
+                    try:
+                        SS(din, rin).compute_residue_pairs_ref(cutoff=case['prime_pickle'])
+                    except Exception:
+                        pass
                 if case.get('prime_cutoff') is not None:
                     # repeated use of ONE StructureSimilarity object: an earlier call with another cutoff must not
                     # influence this one ("any cutoff"; computations depend on their arguments only)
@@ -115,6 +122,11 @@ def evaluate(ctx, rep, pdb2sql, cases, record=True):
                 v = sim.compute_fnat_fast(cutoff=cutoff) if case['route'] == 'fast' else sim.compute_fnat_pdb2sql(cutoff=cutoff)
                 return ['OK', fnat_value(v)]
             impl = run_impl(call)
+            if case['as_file']:
+                import glob as _glob
+                for f in _glob.glob(os.path.join(ctx.scratch, '*.pckl')) + _glob.glob(os.path.join(os.path.dirname(ctx.scratch), '*residue_contact_pairs.pckl')):
+                    try: os.remove(f)
+                    except OSError: pass
             fq = Fraction(cutoff)
             k = len(reqs)
             if case['route'] == 'fast':
@@ -301,6 +313,8 @@ def gen_fnat_cases(rng, n, big):
                 cs = {'fn': 'fnat', 'ref': rl, 'decoy': dl, 'cutoff': cutoff, 'route': route, 'as_file': as_file}
                 if rng.random() < 0.2:
                     cs['prime_cutoff'] = rng.choice([3.0, 8.0, 12.0, 4.0]); dist['object-reused-with-other-cutoff'] += 1
+                if as_file and rng.random() < 0.5:
+                    cs['prime_pickle'] = rng.choice([3.0, 8.0, 12.0, 4.0]); dist['pairs-saved-earlier-for-other-cutoff'] += 1
                 cases.append(cs)
             dist['decoy=' + '+'.join(kind)] += 1
         dist['lattice-0.125' if lattice else 'grid-0.001'] += 1
